@@ -77,7 +77,8 @@ def classify_hang(hangline):
     stages = sorted(set(s for s, _ in st))
     # some workers wait at the barrier of gvt_msg_drain (stage 4) with an idle GVT phase while others are still flushing an opening
     # round (stage 3, phase A or B) or have not left the main loop and are inside a round: F12
-    if 4 in stages and any(s == 3 and ph in (1, 2) for s, ph in st):
+    # Nobody can be past that barrier (stage 5 and later) in F12: a worker passes it only after every worker of every rank has reached it.
+    if 4 in stages and max(stages) <= 4 and any(s == 3 and ph in (1, 2) for s, ph in st):
         return "hang:drain-skips-opening-round"
     if stages == [1]:
         return "hang:main-loop"
